@@ -283,6 +283,12 @@ func (c *Config) setField(name string, idx int, v value, options []Option) Error
 		if sub.c.fields == nil {
 			sub.c.fields = &fields{}
 		}
+		// a Config can not become its own descendant
+		for p := c; p != nil; p = p.Parent() {
+			if p == sub.c {
+				return raiseCyclicErr(name)
+			}
+		}
 	}
 
 	opts := makeOptions(options)
